@@ -134,9 +134,7 @@ namespace rkcommon {
     inline Optional<T>::Optional(Optional<T> &&other) : Optional()
     {
       if (other.has_value()) {
-        reset();
-        value()  = std::move(other.value());
-        hasValue = true;
+        emplace(std::move(other.value()));
       }
     }
 
@@ -151,9 +149,7 @@ namespace rkcommon {
                     " Optional<>.");
 
       if (other.has_value()) {
-        reset();
-        value()  = std::move(other.value());
-        hasValue = true;
+        emplace(std::move(other.value()));
       }
     }
 
